@@ -107,7 +107,7 @@ HIST_RULE = ("history: random multi-round histories of one or two LLO instances 
              "hand-built previous outcomes (any stage string, dangling validity starts, aggregates of every type). Each round is evaluated "
              "from the implementation's own previous outcome. A case is one history; distinct by SHA-1 of its input.")
 HIST_N = dict(n_quick=96, n_thorough=1500)
-BRANCH_NAMES['history'] = ['rounds', 'channel_reports', 'promotions', 'retirements', 'erroring_rounds']
+BRANCH_NAMES['history'] = ['rounds', 'channel_reports', 'promotions', 'retirements', 'erroring_rounds', 'outcome_bytes_compared']
 
 
 def hist_prop(idx, expl, assume):
@@ -197,8 +197,11 @@ PROPS['C10'] = dict(
                 "codecs on every run (Encode bytes predicted exactly, Decode structure), and the C10 predicate (fields preserved, v0 seconds, "
                 "canonical, decode-then-encode stable, no panic) is evaluated on the Go results. The composed statements are Coq theorems: "
                 "C10_decode_encode (for every well-formed outcome of any size, decode(encode o) = the outcome, validity starts floored to "
-                "seconds under version 0), C10_fields_preserved (field by field) and C10_reencode_stable (encode(decode(encode o)) gives the "
-                "same bytes).",
+                "seconds under version 0), C10_fields_preserved (field by field), C10_reencode_stable (encode(decode(encode o)) gives the "
+                "same bytes), C10_decoded_outcome_wf / C10_decode_reencode_v1 (arbitrary bytes: whatever decodes is well-formed and "
+                "re-encodes), and C10_plugin_outcome_refines: Plugin.Outcome at byte level (PluginOutcome.plugin_outcome, whose output is "
+                "compared byte for byte with Go's Outcome on every history round) decodes to exactly the struct-level step the history "
+                "theorems are about.",
     assumptions=["protobuf-go byte-level decoding of arbitrary input is as modelled in Wire.v (compared on generated and mutated messages)",
                  "lifecycle stage strings are ASCII (reachable states hold three ASCII constants)"],
     level_text="Coq theorems for the wire layer, stream-value round-trip, canonical ordering, total decoding and v0 range errors over a "
